@@ -2,6 +2,7 @@ package checks
 
 import (
 	"fmt"
+	"strings"
 
 	"verif/internal/ev"
 	"verif/internal/imp"
@@ -25,7 +26,7 @@ func c06Family(name, local string, ctors []string, near []string) *family {
 	}
 	return &family{name: name, ctors: ctors, local: local, paths: paths, names: names, bigHints: big,
 		aliases: []string{".", "c"}, prefixes: []string{"pkg"}, maxRefs: 3, freeRefs: 2,
-		wrappers: []int{0, imp.WrapperIndex("dictkey"), imp.WrapperIndex("caseblock")}, anon: true, extra: true, last: true, doubles: true}
+		wrappers: []int{0, imp.WrapperIndex("dictkey"), imp.WrapperIndex("caseblock")}, anon: true, extra: true, last: true, doubles: true, rehint: true}
 }
 
 var c06Check = &impCheck{
@@ -53,13 +54,61 @@ var c06Check = &impCheck{
 	},
 }
 
+// c06Scale: files with many ordinary imports (sizes around powers of two) before / after 1-3
+// dot-imports and a reference to the local package, prefix on/off.
+func c06Scale(r *ev.Recorder) {
+	for _, n := range []int{0, 1, 7, 8, 9, 15, 16, 17, 31, 32, 33, 63, 64, 65, 130, 260} {
+		for dots := 1; dots <= 3; dots++ {
+			for variant := 0; variant < 4; variant++ {
+				names := map[string]string{}
+				w := imp.New("NewFilePath", "a.b/c", imp.DefaultTrueName(names))
+				if variant&1 != 0 {
+					w.Prefix("pkg")
+				}
+				ordinary := func() {
+					for i := 0; i < n; i++ {
+						w.Ref(fmt.Sprintf("u%d/q%d", i, i%7), 0)
+					}
+				}
+				for d := 0; d < dots; d++ {
+					w.Alias(fmt.Sprintf("x%d/dot", d), ".")
+				}
+				if variant&2 == 0 {
+					ordinary()
+				}
+				for d := 0; d < dots; d++ {
+					w.Ref(fmt.Sprintf("x%d/dot", d), 0)
+				}
+				w.Ref("a.b/c", 0)
+				if variant&2 != 0 {
+					ordinary()
+				}
+				r.Eval(1)
+				a, msg := renderAnalyze(w)
+				var probs []string
+				if a == nil {
+					probs = []string{msg}
+				} else {
+					probs = append(imp.CheckLocalDot(a, w), imp.CheckResolve(a, w)...)
+					r.Distinct(a.Src)
+				}
+				if len(probs) > 0 {
+					desc := fmt.Sprintf("%d ordinary imports (after the dot-imports: %v), %d dot-imports, prefix %v", n, variant&2 != 0, dots, variant&1 != 0)
+					r.Violate(ev.Violation{Signature: "c06:scale:" + problemKind(probs[0]), What: desc + ": " + probs[0], Case: ev.JSON(impCase{Ops: []string{desc}}), Detail: strings.Join(probs, "\n")})
+				}
+			}
+		}
+	}
+}
+
 func init() {
 	register(&Check{ID: "C06", Level: "model_checking", Run: func(r *ev.Recorder) {
 		r.Rule = "(1) explicit-state BFS over one real File created with NewFilePath(\"a.b/c\"): references (plain and as Dict key) to the local path, a near miss and three other paths, ImportName, ImportAlias(p, \".\"), ImportAlias(p, d1) and Anon(p) for every path, PackagePrefix, in every order up to the depth bound. " +
 			"(2) canonical pre-render histories for 4 local-path families (local path a.b/c, c, x/y/c/, x/foo/v2; optionally after a 70-entry ImportNames table that names the same paths; near misses: trailing slash, prefix, suffix, case, last element only) via NewFilePath and NewFilePathName: every reference sequence, every subset of paths declared dot-imports (last hint wins; double hints and hints after the references included), prefix on/off, within the deviation bound. " +
 			"Oracle on the parsed output: a reference to the local path is a bare identifier and no spec imports it; a reference to a path whose last hint is ImportAlias(p, \".\") is bare and exactly one spec `. \"p\"` exists; every other reference is qualified and its path imported under a name; go/types resolves every identifier (bare ones through the fabricated dot-imported package). " +
-			"distinct_nontrivial = distinct outputs containing at least one bare reference"
-		r.Assume = []string{"the dot-import status of a path is decided by the last hint given before the (single) render; hints given after a render are C08's subject", "histories beyond the depth / deviation bounds are outside the bound"}
+			"(3) scale: 0..260 ordinary imports (sizes around powers of two) before or after 1-3 dot-imports and a local reference, prefix on/off. distinct_nontrivial = distinct outputs containing at least one bare reference"
+		r.Assume = []string{"the dot-import status of a path is decided by the last hint given before the first render; a path rendered bare once stays a dot-import whatever is hinted afterwards (one scenario option re-hints after a render)", "histories beyond the depth / deviation bounds are outside the bound"}
 		c06Check.run(r)
+		c06Scale(r)
 	}, Replay: c06Check.replay})
 }
